@@ -47,6 +47,10 @@ QUICK_BFS = [
     ("k6-set4", "K=6 off=all prio=- resched=- sets=4 cap=10000"),
     # a three-item set plus single items / a second set on the wrap offsets
     ("k4-sets-wrap", "K=4 off=0,1,24 prio=3 resched=- sets=1,2,3 cap=1500000"),
+    # callbacks that call tdma_sched_reset() from inside tdma_sched_execute() (as prim_fbsb.c does) and then schedule
+    # nothing / an item for this frame / an item for the next frame, with items before, beside and behind them
+    ("k2-resetcb", "K=2 off=all prio=0,3,7 resched=- rstcb=0,1,2 rprio=3 sets=- cap=600000"),
+    ("k4-resetcb-near", "K=4 off=0,1 prio=0,3,7 resched=0,1 rstcb=0,1,2 rprio=3 sets=- cap=3500000"),
 ]
 THOROUGH_BFS = QUICK_BFS + [
     # K=3 with 5 priorities (incl. both extremes and the sign change) at all offsets
@@ -59,6 +63,8 @@ THOROUGH_BFS = QUICK_BFS + [
     ("k4-prio1", "K=4 off=all prio=3 resched=- sets=- cap=800000"),
     # a three-item set plus one single item / one-item sets at all offsets
     ("k4-sets-all", "K=4 off=all prio=3 resched=- sets=0,1,2,3 cap=15000000"),
+    ("k3-resetcb-all", "K=3 off=all prio=0,7 resched=- rstcb=0,1,2 rprio=3 sets=- cap=13000000"),
+    ("k4-resetcb-sets", "K=4 off=0,1 prio=0,3,7 resched=- rstcb=0,1,2 rprio=3 sets=1,2 cap=1500000"),
 ]
 
 
@@ -191,7 +197,7 @@ def run(ctx):
         c = ctx.cov
         c.update({"states": 0, "transitions": 0, "order_cases": 0, "capacity_cases": 0, "refusals_checked": 0, "setsweep_cases": 0,
                   "set_calls_nonfirst_frame_on_slot24": 0, "set_calls_wrapping_ring": 0, "history_dependent_keys": 0, "verify_requests": 0,
-                  "sampled_traces_rerun_alone": 0, "sampled_traces_differing": 0,
+                  "sampled_traces_rerun_alone": 0, "sampled_traces_differing": 0, "resets_from_callbacks": 0,
                   "execute_calls": 0, "items_due_at_execute": 0, "schedule_calls": 0, "set_calls": 0, "resets": 0,
                   "bad_transitions": 0})
         bfs, complete, depth = {}, True, 0
@@ -210,12 +216,12 @@ def run(ctx):
                 bfs[r["name"]] = {k: js[k] for k in ("states", "transitions", "depth", "frontier_exhausted", "K", "alphabet",
                                                       "max_outstanding", "ring_positions", "min_states_per_position", "item_types",
                                                       "set_calls", "set_calls_nonfirst_frame_on_slot24", "set_calls_wrapping_ring",
-                                                      "sampled_traces_rerun_alone", "sampled_traces_differing")}
+                                                      "resets_from_callbacks", "sampled_traces_rerun_alone", "sampled_traces_differing")}
                 bfs[r["name"]]["config"] = " ".join(map(str, r["args"][1:]))
                 complete = complete and js["frontier_exhausted"] and js["ring_positions"] == 25
                 depth = max(depth, js["depth"])
                 for k in ("states", "transitions", "execute_calls", "items_due_at_execute", "schedule_calls", "set_calls",
-                          "resets", "bad_transitions", "sampled_traces_rerun_alone", "sampled_traces_differing"):
+                          "resets", "bad_transitions", "sampled_traces_rerun_alone", "sampled_traces_differing", "resets_from_callbacks"):
                     c[k] += js[k]
             elif ok:
                 for k in ("order_cases", "capacity_cases", "refusals_checked", "setsweep_cases"):
@@ -249,6 +255,9 @@ def run(ctx):
             "is the complete state; tdma_sched_flag_scan()/tdma_sched_dump() are not exercised",
             "return values 0 / number of end-of-frame markers / -1 and execute's item count are checked as DESIGN.md lists them "
             "(keys C08:retval:*), although the statement itself only demands that overflow is reported as an error",
+            "tdma_sched_reset() called by a callback during tdma_sched_execute(): items of later frames are gone, items of this frame "
+            "that had not run yet may run in it or not at all, an item the callback schedules afterwards (accepted with 0) must run "
+            "exactly once in its frame - for offset 0 in this very frame",
             "a follow-up scheduled by a callback for the frame being executed must run in that frame after its creator; no "
             "priority order is demanded of it (tdma_sched.c documents that priorities do not apply there)",
         ]
